@@ -182,7 +182,7 @@ def _mk_ops():
     import torch
     W = MatVal
     ops = {
-        'val': lambda t: W(t),
+        'val': lambda t: W(t.detach().clone()) if hasattr(t, 'detach') else W(t),
         'mul': lambda a, b: W(_m(a) @ _m(b)),
         'add': lambda a, b: W(_m(a) + _m(b)),
         'sub': lambda a, b: W(_m(a) - _m(b)),
@@ -418,3 +418,51 @@ def install_trace_hooks():
                                     t.dtype if t is not None else None))
             return __orig(*a, **k)
         setattr(dist, name, wrapped)
+
+
+def _bucketed_requests_ok(tdc):
+    """Executable oracle of C08 (bounded clauses only): every request recorded by the generator resolved, after
+    the flush, to what an unbucketed reduction of that tensor over the requested group gives (value, shape, dtype)."""
+    import torch
+    import torch.distributed as dist
+    from kfac.distributed import get_triu, fill_triu
+    for (t, average, group, symmetric, fut) in getattr(tdc, '_vp_requests', []):
+        got = fut.wait() if not isinstance(fut, torch.Tensor) else fut
+        size = len(list(_members(group)))
+        x = get_triu(t) if symmetric else t
+        s = _m(_allsum_rt(x, group))
+        if average:
+            s = s / size
+        if symmetric:
+            s = fill_triu(tuple(t.shape), s)
+        if tuple(got.shape) != tuple(t.shape) or got.dtype != t.dtype:
+            H.last_detail = f'request of shape {tuple(t.shape)} {t.dtype} resolved to {tuple(got.shape)} {got.dtype}'
+            return False
+        if MatVal(got) != MatVal(s.to(torch.float64)):
+            H.last_detail = f'request (average={average}, symmetric={symmetric}, group of {size}) resolved to a different value'
+            return False
+    return True
+
+
+FUNCS['bucketed_requests_ok'] = _bucketed_requests_ok
+
+
+def _triu_rt(v, sh):
+    import torch
+    t = _m(v).reshape(tuple(sh))
+    i = torch.triu_indices(sh[0], sh[1])
+    return MatVal(t[i[0], i[1]])
+
+
+def _filltriu_rt(sh, x, e=None):
+    import torch
+    n = sh[0]
+    out = torch.zeros(tuple(sh), dtype=_m(x).dtype)
+    i = torch.triu_indices(sh[0], sh[1])
+    out[i[0], i[1]] = _m(x)
+    out = out + out.t() - torch.diag(torch.diagonal(out)) if sh[0] == sh[1] else out
+    return MatVal(out)
+
+
+FUNCS.update({'triu': _triu_rt, 'filltriu': _filltriu_rt, 'uninit': lambda sid: None,
+              'tri_numel': lambda r, c: len(__import__('torch').triu_indices(r, c)[0])})
